@@ -100,13 +100,17 @@ Qed.
 Lemma upto_In n x : x < N.of_nat n -> In x (upto n).
 Proof. intros H. apply upto_aux_In. left. exact H. Qed.
 
+Lemma roman_ok_spec n : roman_ok n = true -> parse_roman (rv_roman n) = Some (n + 1).
+Proof.
+  unfold roman_ok. generalize (parse_roman (rv_roman n)). intros [k|] H; [|discriminate].
+  apply N.eqb_eq in H. congruence.
+Qed.
+
 Lemma roman_inverse n : n < 3999 -> parse_roman (rv_roman n) = Some (n + 1).
 Proof.
-  intros H. pose proof roman_sweep as S. rewrite forallb_forall in S.
-  assert (I : In n (upto 3999)) by (apply upto_In; simpl; lia).
-  specialize (S n I). unfold roman_ok in S.
-  destruct (parse_roman (rv_roman n)) as [k|]; [|discriminate].
-  apply N.eqb_eq in S. congruence.
+  intros H. apply roman_ok_spec.
+  pose proof roman_sweep as S. rewrite forallb_forall in S. apply S.
+  apply upto_In. change (N.of_nat 3999) with 3999. exact H.
 Qed.
 
 Lemma roman_injective a b : a < 3999 -> b < 3999 -> rv_roman a = rv_roman b -> a = b.
